@@ -215,6 +215,11 @@ func setup() (*world, error) {
 	os.WriteFile(filepath.Join(wd.root, "t.txt"), bytes.Repeat([]byte("compress me "), 500), 0o644)
 	// a name so long that the name of the compressed copy (name + suffix) is not a valid file name
 	os.WriteFile(filepath.Join(wd.root, longName), bytes.Repeat([]byte("compress me "), 500), 0o644)
+	// a file whose compressed copy cannot be saved for a reason that is not a permission
+	// error (as on a read-only or full file system): the name of the temporary file the
+	// handler creates is taken by a directory
+	os.WriteFile(filepath.Join(wd.root, "u.txt"), bytes.Repeat([]byte("compress me "), 500), 0o644)
+	os.MkdirAll(filepath.Join(wd.root, "u.txt.hertz.gz.tmp"), 0o755)
 	opt := func() *config.Options { return rig.Options(nil) }
 	mk := func(name string, fs *app.FS, ranges bool) {
 		fs.Root = wd.root
@@ -327,7 +332,7 @@ func judge(w *mon.W, en *engine, q reqSpec, m *wire.Message, wd *world) string {
 	}
 	L := q.L
 	file := content(L, L)
-	if q.file == "t.txt" || q.file == longName {
+	if q.file == "t.txt" || q.file == longName || q.file == "u.txt" {
 		file = bytes.Repeat([]byte("compress me "), 500)
 		L = len(file)
 	}
@@ -574,7 +579,7 @@ func work(w *mon.W) {
 				qs = []reqSpec{rg, q, rh, rg, plain}
 			}
 			if r.Chance(5) {
-				lq := reqSpec{method: "GET", file: longName, L: 6000, kind: "file", gzip: true}
+				lq := reqSpec{method: "GET", file: r.Str(longName, "u.txt"), L: 6000, kind: "file", gzip: true}
 				lh := lq
 				lh.method = "HEAD"
 				lp := lq
